@@ -132,7 +132,9 @@ def make_plan(rnd, quick):
                     nt = 4 if rep % 2 == 0 else 3
                     other = [o for o in burst_ops if o in applicable_ops(fam, state, 0) and o != op]
                     threads = [["%s:%d" % (op, rnd.randrange(40)), "%s:%d" % (rnd.choice(other), rnd.randrange(40)), "%s:%d" % (op, rnd.randrange(40))] for _ in range(nt)]
-                    execs.append({"x": xid, "fam": fam, "var": 0, "state": state, "nt": nt, "ypm": 0, "seed": rnd.randrange(1, 1 << 30), "threads": threads})
+                    # variants of the family's grid (rule / order) alternate; for local polynomial grids bit 2 selects order 4 / -1
+                    execs.append({"x": xid, "fam": fam, "var": (0, 2, 3)[rep % 3] if fam == "localp" else (0, 1)[rep % 2], "state": state, "nt": nt, "ypm": 0,
+                                  "seed": rnd.randrange(1, 1 << 30), "threads": threads})
     # the wavelet family owns the only hooked cell: more seeds, all variant bits
     for rep in range(2 if quick else 10):
         for state in BASE_STATES + EXTRA_STATES:
